@@ -1,4 +1,3 @@
-from copy import deepcopy
 from typing import Any
 
 from niltype import Nil, Nilable
@@ -48,7 +47,7 @@ class SubstitutorValidator(Validator):
             for index, elem in enumerate(value):
                 if is_ellipsis(elem) and (index == 0 or index == len(value) - 1):
                     continue
-                nested_path = deepcopy(path)[index]
+                nested_path = self._copy_path(path)[index]
                 res = type_schema.__accept__(self, value=elem, path=nested_path, **kwargs)
                 result.add_errors(res.get_errors())
             return result
@@ -74,7 +73,7 @@ class SubstitutorValidator(Validator):
             if key in value:
                 if is_ellipsis(value[key]):
                     continue
-                nested_path = deepcopy(path)[key]
+                nested_path = self._copy_path(path)[key]
                 res = val.__accept__(self, value=value[key], path=nested_path, **kwargs)
                 result.add_errors(res.get_errors())
 
